@@ -2,6 +2,7 @@
 // watchdog, statistics, guard-page buffers.  See DESIGN.md section 3.3.
 #pragma once
 #include <stdint.h>
+#include <stdarg.h>
 #include <stdio.h>
 #include <stdlib.h>
 #include <string.h>
@@ -152,7 +153,9 @@ static inline void fail(const std::string &check, const std::vector<std::string>
                         const std::string &expected)
 {
     ++g_fail_count;
-    if(++g_fail_per_check[check] > 25) return; // keep logs bounded; count is still reported
+    std::string key = check;
+    for(auto &t : tags) key += "|" + t;
+    if(++g_fail_per_check[key] > 25) return; // keep logs bounded; count is still reported
     out_line("{\"t\":\"fail\",\"check\":" + jstr(check) + ",\"tags\":" + jtags(tags) +
              ",\"index\":" + std::to_string((long long)g_case_index) + ",\"case\":" + jstr(case_desc) +
              ",\"observed\":" + jstr(observed) + ",\"expected\":" + jstr(expected) + "}");
